@@ -168,7 +168,8 @@ fn p_map_c02(n: usize) {
         Err(_) => assert!(exp.n > 0, "C02: Err although the payload contains no fault"),
     }
     kani::cover!(r.is_ok(), "Ok reached");
-    kani::cover!(nrep() >= 2, "two reports reached");
+    kani::cover!(n < 2 || nrep() >= 2, "two reports reached");
+    kani::cover!(nrep() >= 1, "a report reached");
     core::mem::forget(r);
 }
 
@@ -210,12 +211,14 @@ macro_rules! hm {
     };
 }
 
-hm!(c01_q_btmap_m2, p_map_c01(2, true));
+hm!(c01_q_btmap_m1, p_map_c01(1, true));
+hm!(c01_t_btmap_m2, p_map_c01(2, true));
 hm!(c01_t_btmap_m3, p_map_c01(3, true));
 hm!(c12_q_btmap_dup_m2, p_map_c01(2, false));
-hm!(c06_q_btmap_m2, p_map_c02(2));
+hm!(c06_q_btmap_m1, p_map_c02(1));
+hm!(c06_t_btmap_m2, p_map_c02(2));
 hm!(c06_t_btmap_m3, p_map_c02(3));
-hm!(c02_q_btmap_m2, p_map_c02(2));
+hm!(c02_t_btmap_m2, p_map_c02(2));
 
 // ---- BTreeSet<u8>: insert log = payload elements in order
 #[cfg(kani)]
@@ -250,10 +253,12 @@ fn p_set(n: usize) {
         Err(_) => assert!(exp.n > 0, "C02: Err although the payload contains no fault"),
     }
     kani::cover!(r.is_ok(), "Ok reached");
-    kani::cover!(nrep() >= 2, "two reports reached");
+    kani::cover!(n < 2 || nrep() >= 2, "two reports reached");
+    kani::cover!(nrep() >= 1, "a report reached");
     core::mem::forget(r);
 }
-hm!(c06_q_btset_s2, p_set(2));
+hm!(c06_q_btset_s1, p_set(1));
+hm!(c06_t_btset_s2, p_set(2));
 hm!(c06_t_btset_s3, p_set(3));
 
 // ---- C15 for map targets: member order does not change the outcome
@@ -317,5 +322,5 @@ fn p_map_c15(n: usize) {
     kani::cover!(!ok1 && n1 >= 2, "two reports reached");
     core::mem::forget(r2);
 }
-hm!(c15_q_btmap_m2, p_map_c15(2));
+hm!(c15_t_btmap_m2, p_map_c15(2));
 hm!(c15_t_btmap_m3, p_map_c15(3));
